@@ -8,7 +8,7 @@
    context" spelled out with <= and <.  [serial] / [parallel] are the models of the two sources of
    beddata.rs; [bw_write], [bw_write_multipass] the bigWig writer model of Model/BigWigWrite.v. *)
 From BT Require Import Base.Util Base.Float Model.RTree Model.BBIFile Model.BigWigWrite Model.Accept
-  Proofs.RTreeShape Proofs.AcceptParse Proofs.AcceptRules Proofs.WriterTotal.
+  Proofs.RTreeShape Proofs.AcceptParse Proofs.AcceptRules Proofs.AcceptParallel Proofs.WriterTotal.
 Local Open Scope N_scope.
 
 (* ---- bigWig: the model writer's verdict, both pass modes, is the rule's verdict; and the rule
@@ -94,6 +94,40 @@ Proof.
   - intros items. apply serial_parsed.
 Qed.
 Print Assumptions C13_bb_text.
+
+(* ---- serial and parallel source: the same texts are accepted.  [line_runs l] is the chromosome
+   index of the text (runs of lines with the same first field); the parallel source checks order
+   and sizes when a run is queued (up to five runs ahead) and collects the tasks' results in
+   order, so the class it reports may belong to a later item than the serial source's; whether
+   the text is accepted does not differ.  Neither source panics or fails to return (the assert on
+   equal neighbouring index entries cannot fire on runs of lines; the fuel of the outer loop is
+   never used up). ---- *)
+Theorem C13_serial_eq_parallel_verdict : forall (V : Type) (vclass : N -> V -> option V -> option N) sort_all sizes
+    (l : list (pline V)), l <> [] ->
+  (serial (chk_of vclass) sort_all sizes l = Ok tt <-> parallel (chk_of vclass) sort_all sizes (line_runs l) = Ok tt)
+  /\ plain (parallel (chk_of vclass) sort_all sizes (line_runs l))
+  /\ plain (serial (chk_of vclass) sort_all sizes l).
+Proof.
+  intros V vclass sort_all sizes l Hne. split; [|split].
+  - rewrite <- !okb_true. now rewrite (serial_parallel_ok vclass sort_all sizes l Hne).
+  - apply parallel_plain.
+  - destruct (serial_ok_or_err vclass sort_all sizes l) as [[H _]|H]; [left; exact H|right; exact H].
+Qed.
+Print Assumptions C13_serial_eq_parallel_verdict.
+(* the same for the two text formats *)
+Theorem C13_text_serial_eq_parallel : forall fok o sizes text, lines_of text <> [] ->
+  (bw_text_serial fok o sizes text = Ok tt <-> bw_text_parallel fok o sizes text = Ok tt)
+  /\ (bb_text_serial o sizes text = Ok tt <-> bb_text_parallel o sizes text = Ok tt).
+Proof.
+  intros fok o sizes text Hne. unfold bw_text_serial, bw_text_parallel, bb_text_serial, bb_text_parallel. split.
+  - rewrite (serial_ext check_val (chk_of bw_val_class) check_val_class),
+            (parallel_ext check_val (chk_of bw_val_class) check_val_class).
+    apply C13_serial_eq_parallel_verdict. unfold bw_lines. intros E. apply map_eq_nil in E. contradiction.
+  - rewrite (serial_ext bb_check_val (chk_of bb_val_class) bb_check_val_class),
+            (parallel_ext bb_check_val (chk_of bb_val_class) bb_check_val_class).
+    apply C13_serial_eq_parallel_verdict. unfold bb_lines. intros E. apply map_eq_nil in E. contradiction.
+Qed.
+Print Assumptions C13_text_serial_eq_parallel.
 
 (* ---- the field-level parsers ---- *)
 Theorem C13_parse_u32 : forall s n,
